@@ -135,7 +135,7 @@ Qed.
 Theorem failed_op_wf : forall s o j retain inuse,
   wf s -> c10_op o -> accepts o s = true ->
   forallb (fun t => negb (is_discard t)) (firstn j (tasks_for o s retain inuse)) = true ->
-  rs_guard o s -> cfg_guard o s ->
+  cfg_guard o s ->
   wf (run_change o (S j) (tasks_for o s retain inuse) s).
 Proof. intros. eapply wf_forget; [apply failed_op_restores; auto|assumption]. Qed.
 
